@@ -255,6 +255,14 @@ func (f *frame) instr(ins ssa.Instruction) {
 		if isString(x.X.Type()) {
 			vc.unsupported("range over string")
 		}
+		// iterator: fresh id with an empty ghost set of produced keys
+		mt := x.X.Type().Underlying().(*types.Map)
+		ks := vc.sortOf(mt.Key())
+		it := f.allocRef("iter")
+		hn := "Gh.iter.seen." + sanitize(ks)
+		hs := "(Array Int (Array " + ks + " Bool))"
+		f.st = vc.store(f.st, hn, hs, sx("store", vc.lookup(f.st, hn, hs), it, fmt.Sprintf("((as const (Array %s Bool)) false)", ks)))
+		f.iters[x] = it
 		f.vals[x] = Val{t: f.term(x.X)}
 	case *ssa.Next:
 		f.nextOp(x)
@@ -334,9 +342,23 @@ func (f *frame) nextOp(x *ssa.Next) {
 	mt := rng.X.Type().Underlying().(*types.Map)
 	m := f.term(rng.X)
 	ok := vc.fresh("next.ok", "Bool")
-	k := vc.fresh("next.k", vc.sortOf(mt.Key()))
+	ks := vc.sortOf(mt.Key())
+	k := vc.fresh("next.k", ks)
 	f.assume(vc.typeFacts(k, mt.Key(), f.st))
 	f.assume(implies(ok, f.mapHas(m, mt, k, f.st)))
+	if it, okIt := f.iters[rng]; okIt {
+		hn := "Gh.iter.seen." + sanitize(ks)
+		hs := "(Array Int (Array " + ks + " Bool))"
+		seen := vc.lookup(f.st, hn, hs)
+		// a produced key was not produced before; when the iteration ends every key still in the map was produced
+		f.assume(implies(ok, not(sx("select", sx("select", seen, it), k))))
+		hh, hhs, _, _ := f.mapHeaps(mt)
+		hasRow := sx("select", vc.lookup(f.st, hh, hhs), m)
+		if vc.qf == 0 {
+			f.assume(implies(not(ok), fmt.Sprintf("(forall ((q!k %s)) (! (=> (select %s q!k) (select (select %s %s) q!k)) :pattern ((select %s q!k))))", ks, hasRow, seen, it, hasRow)))
+		}
+		f.st = vc.store(f.st, hn, hs, ite(ok, sx("store", seen, it, sx("store", sx("select", seen, it), k, "true")), seen))
+	}
 	v := vc.define("next.v", vc.sortOf(mt.Elem()), f.mapGet(m, mt, k, f.st))
 	f.assume(implies(ok, vc.typeFacts(v, mt.Elem(), f.st)))
 	vc.assumed["map iteration: finite, each key of the current map may be produced (order-free); termination of map range loops assumed"] = true
@@ -347,7 +369,7 @@ func (f *frame) sendOp(x *ssa.Send) {
 	vc := f.vc
 	ch := f.term(x.Chan)
 	// ghost: closed flag per channel
-	cl := vc.lookup(f.st, "#chan.closed", "(Array Int Bool)")
+	cl := vc.lookup(f.st, "Gh.chan.closed", "(Array Int Bool)")
 	f.oblige("safety", "send-closed:"+f.keyOf(x.Chan, x.Pos()), nil, not(sx("select", cl, ch)), x.Pos())
 	vc.assumed["channel send: blocking and scheduling not modelled"] = true
 }
@@ -364,7 +386,7 @@ func (f *frame) selectOp(x *ssa.Select) {
 	elems := []Val{{t: idx}, {t: vc.fresh("select.ok", "Bool")}}
 	for i, s := range x.States {
 		if s.Dir == types.SendOnly {
-			cl := vc.lookup(f.st, "#chan.closed", "(Array Int Bool)")
+			cl := vc.lookup(f.st, "Gh.chan.closed", "(Array Int Bool)")
 			f.obligeAt(and(f.R, eq(idx, num(int64(i)))), "safety", "send-closed:"+f.keyOf(s.Chan, x.Pos()), nil, not(sx("select", cl, f.term(s.Chan))), x.Pos())
 		} else {
 			et := s.Chan.Type().Underlying().(*types.Chan).Elem()
